@@ -148,7 +148,7 @@ def vm_stream(ctx, elk, model):
             if len(f) == 3:
                 cases.append((f[0], int(f[1]), int(f[2])))
     ncorpus = len(cases)
-    for _ in range(ctx.n(330, 45000)):
+    for _ in range(ctx.n(330, 9000)):
         cases.append(gen_vm_case(r))
     ids = [str(i) for i in range(len(cases))]
     inputs = {str(i): "%s %s %d %s %d" % (c[0], rep(c[1]), c[1], rep(c[2]), c[2]) for i, c in enumerate(cases)}
@@ -275,7 +275,7 @@ def run(ctx):
     ctx.run_proof_gate()
     h = vlib.build_harness("c06")
     m = vlib.build_model_exact("C06")
-    vlib.value_stream(ctx, "c06.val", h, m, ctx.n(6000, 400000), keyfn,
+    vlib.value_stream(ctx, "c06.val", h, m, ctx.n(6000, 250000), keyfn,
                       "seeded operands from boundary clusters (0, +-1, +-2^k+-3 for k in 0..128) and random 1-200 bit values, "
                       "x 19 operators x 2 entry points (value.*Val / value.*Ints); shift amounts around 0, 63-66, 127-129, "
                       "+-300 and amounts beyond 64 bits; result value AND representation AND operand immutability compared "
